@@ -48,17 +48,7 @@ def main(repo, out):
     allowed = {'buffer/property_buffer.rs', 'map/unicode_map.rs', 'map/circle_map.rs'}
     extra = sorted(set(hm) - allowed)
     anchor('no hash container outside property_buffer.rs, unicode_map.rs, circle_map.rs', ['C07'], not extra, ', '.join(extra))
-    # the entry points have the bodies Lib.v mirrors
-    lib = norm(rd('lib.rs'))
-    want = {
-        'to_svg': 'pubfnto_svg(ascii:&str)->String{to_svg_string_pretty(ascii)}',
-        'to_svg_string_pretty': 'pubfnto_svg_string_pretty(ascii:&str)->String{letcb=CellBuffer::from(ascii);letnode:Node<()>=cb.get_node();letmutbuffer=String::new();node.render(&mutbuffer).expect("mustrender");buffer}',
-        'to_svg_string_compressed': 'pubfnto_svg_string_compressed(ascii:&str)->String{letcb=CellBuffer::from(ascii);letnode:Node<()>=cb.get_node();node.render_to_string()}',
-        'to_svg_with_settings': 'pubfnto_svg_with_settings(ascii:&str,settings:&Settings)->String{letcb=CellBuffer::from(ascii);let(node,_w,_h):(Node<()>,f32,f32)=cb.get_node_with_size(settings);letmutbuffer=String::new();node.render(&mutbuffer).expect("mustrender");buffer}',
-        'to_svg_with_override_size': 'pubfnto_svg_with_override_size(ascii:&str,settings:&Settings,w:f32,h:f32,)->String{letcb=CellBuffer::from(ascii);letnode:Node<()>=cb.get_node_override_size(settings,w,h);letmutbuffer=String::new();node.render(&mutbuffer).expect("mustrender");buffer}',
-    }
-    for k, v in want.items():
-        anchor('lib.rs: body of %s is the one Lib.v mirrors' % k, ['C18'], v in lib)
+    # (the five entry points of lib.rs are tied to Lib.v by running all of them on every input of C18, not by their text)
     json.dump(res, open(out, 'w'), indent=1)
     for r in res:
         if not r['ok']: print('ANCHOR-FAILED: %s %s' % (r['name'], r['detail']))
